@@ -307,6 +307,11 @@ def run(ctx, chk):
     import rules_c16
     import rules_c04
     from report import Sub
+    # text on the wire is CP437 (PA00P015 "character set"): shared with C17-e
+    import rules_c17
+    sub_t = Sub(chk, "C03-e", lambda r: r in ("C17-e/text-codepage",))
+    rules_c17.text(sub_t, [ctx.crate("zvt_builder"), ctx.crate("zvt")])
+    chk.floor("text code page obligations (shared with C17-e)", sub_t.count, 1)
     sub = Sub(chk, "C03-c", lambda r: r.startswith("C16-b/"), instance_filter=lambda i: "Adpu" in str(i))
     rules_c16.run(ctx, sub)
     sub2 = Sub(chk, "C03-c", lambda r: r in ("C04-d/writer-header", "C04-d/reader-header", "C04-d/adpu", "C04-d/marker-constant"))
